@@ -165,7 +165,38 @@ func init() {
 			unsupported("reflect.Value.Len of %T", box.v.(iface).v)
 			return nil
 		},
-		"reflect.TypeOf": func(fr *frame, a []value) value { return iface{t: holeType, v: hole{}} }, // only used for metric labels
+		"reflect.TypeOf": func(fr *frame, a []value) value {
+			x := a[0].(iface)
+			if x.t == nil {
+				return iface{}
+			}
+			return iface{t: holeType, v: rtypeBox{x.t}}
+		},
+		"(reflect.Value).IsNil": func(fr *frame, a []value) value {
+			box, ok := a[0].(structure)[0].(nativeBox)
+			if !ok {
+				unsupported("reflect.Value.IsNil on a value not produced by reflect.ValueOf")
+			}
+			switch x := box.v.(iface).v.(type) {
+			case *value:
+				return x == nil
+			case *omap:
+				return x == nil
+			case []value:
+				return x == nil
+			case iface:
+				return x.t == nil
+			case *ssa.Function:
+				return x == nil
+			case *closure:
+				return x == nil
+			}
+			panic("reflect: call of reflect.Value.IsNil on a non-nillable value")
+		},
+		"google.golang.org/grpc/status.Errorf": func(fr *frame, a []value) value {
+			return fr.in.newError(fr.in.sprintf(a[1], a[2].([]value)))
+		},
+		"google.golang.org/grpc/status.Error": func(fr *frame, a []value) value { return fr.in.newError(a[1]) },
 		"os.Hostname": func(fr *frame, a []value) value { return tuple{"verif-host", iface{}} },
 		"os.Getenv":   func(fr *frame, a []value) value { return "" },
 		"time.Sleep":         func(fr *frame, a []value) value { return nil },
@@ -715,4 +746,74 @@ func (in *interp) randBelow(name string, n value, k types.BasicKind) value {
 	in.assume(in.binop(token.GEQ, nil, v, fromBits(k, 0)))
 	in.assume(in.binop(token.LSS, nil, v, n))
 	return v
+}
+
+// rtypeBox is the executor's reflect.Type: only Kind, Name and String are supported.
+type rtypeBox struct{ t types.Type }
+
+func rtypeMethod(rb rtypeBox, name string) value {
+	switch name {
+	case "Kind":
+		switch u := rb.t.Underlying().(type) {
+		case *types.Pointer:
+			return uint(22)
+		case *types.Struct:
+			return uint(25)
+		case *types.Slice:
+			return uint(23)
+		case *types.Map:
+			return uint(21)
+		case *types.Interface:
+			return uint(20)
+		case *types.Signature:
+			return uint(19)
+		case *types.Chan:
+			return uint(18)
+		case *types.Array:
+			return uint(17)
+		case *types.Basic:
+			switch u.Kind() {
+			case types.Bool:
+				return uint(1)
+			case types.Int:
+				return uint(2)
+			case types.Int8:
+				return uint(3)
+			case types.Int16:
+				return uint(4)
+			case types.Int32:
+				return uint(5)
+			case types.Int64:
+				return uint(6)
+			case types.Uint:
+				return uint(7)
+			case types.Uint8:
+				return uint(8)
+			case types.Uint16:
+				return uint(9)
+			case types.Uint32:
+				return uint(10)
+			case types.Uint64:
+				return uint(11)
+			case types.Uintptr:
+				return uint(12)
+			case types.Float32:
+				return uint(13)
+			case types.Float64:
+				return uint(14)
+			case types.String:
+				return uint(24)
+			}
+		}
+		return uint(0)
+	case "Name":
+		if n, ok := rb.t.(*types.Named); ok {
+			return n.Obj().Name()
+		}
+		return ""
+	case "String":
+		return rb.t.String()
+	}
+	unsupported("reflect.Type.%s", name)
+	return nil
 }
